@@ -765,6 +765,7 @@ def stream_tree(I, R, r, n_hist, maxops=14):
                                                        '1' if kind == 'chan' else '0', wire.enc('vt.var'))]
             impl = ['up']
             ops = []; tags = set(['tree-' + k, 'kind-' + kind]); fails = []; risky = None
+            explicit = set()     # nodes assigned by the history and not reset since (kept by the harness, not read off the bot)
             probes = [p for p in PROBES if (kind == 'chan') or (kind == 'net' and p[1] is None) or p == (None, None)]
             def probe_all():
                 out = {}
@@ -804,9 +805,9 @@ def stream_tree(I, R, r, n_hist, maxops=14):
                         if [d for d in T.dump() if d in dump_before] != dump_before:
                             fails.append('rejected set(%r) at %s changed stored values' % (text, w))
                     else:
-                        newv = after.get(_probe_of(w))
+                        explicit.add(_probe_of(w))
                         _check_locality(fails, w, before, after, 'set(%r)' % text)
-                        _check_follow(fails, T, w, after, probes)
+                        _check_follow(fails, explicit, w, after, probes)
                 elif x < 0.55:
                     w = pick_where(); v = tree_value(r, k)
                     risky = risky or finding_of_value(k, 'vt.var', v)
@@ -815,12 +816,16 @@ def stream_tree(I, R, r, n_hist, maxops=14):
                     lines.append('t_setv\t%s\t%s' % (enc_val(v), enc_where(w))); impl.append(res)
                     after = probe_all()
                     if res == 'done':
+                        explicit.add(_probe_of(w))
                         _check_locality(fails, w, before, after, 'setValue(%r)' % (v,))
-                        _check_follow(fails, T, w, after, probes)
+                        _check_follow(fails, explicit, w, after, probes)
                 elif x < 0.65 and kind == 'chan':
                     n = r.choice([None] + NETS); c = r.choice(CHANS)
                     res = T.reset_chan(n, c)
                     ops.append(['reset_chan', n, c]); tags.add('reset-chan')
+                    if res == 'done':
+                        explicit.discard((None, c.lower()))
+                        if n is not None: explicit.discard((n.lower(), c.lower()))
                     lines.append('t_reset_chan\t%s\t%s' % (wire.enc_opt(n), wire.enc(c))); impl.append(res)
                     after = probe_all()
                     for p in probes:
@@ -832,6 +837,7 @@ def stream_tree(I, R, r, n_hist, maxops=14):
                     n = r.choice(NETS)
                     res = T.reset_net(n)
                     ops.append(['reset_net', n]); tags.add('reset-net')
+                    if res == 'done': explicit.discard((n.lower(), None))
                     lines.append('t_reset_net\t%s' % wire.enc(n)); impl.append(res)
                     after = probe_all()
                     for p in probes:
@@ -902,18 +908,15 @@ def _check_locality(fails, w, before, after, what):
         if not affected(w, p) and before[p] != after[p]:
             fails.append('%s at %s changed getSpecific%r: %s -> %s' % (what, '/'.join(w), p, before[p], after[p]))
 
-def _check_follow(fails, T, w, after, probes):
-    """unset specific values follow the general one"""
+def _check_follow(fails, explicit, w, after, probes):
+    """unset specific values follow the general one: a probe none of whose nodes was assigned by the
+    history (since its last reset) answers the general value"""
     if w[0] != 'base':
         return
-    fl = T.flags()
     base = after[(None, None)]
     for (pn, pc) in probes:
-        chain = []
-        if pn is not None: chain.append('vt.var.\\:' + pn)
-        if pc is not None: chain.append('vt.var.' + pc)
-        if pn is not None and pc is not None: chain.append('vt.var.\\:' + pn + '.' + pc)
-        if all(not fl.get(nm.lower(), False) for nm in chain) and after[(pn, pc)] != base:
+        chain = [(pn, None), (None, pc), (pn, pc)]
+        if all(nd not in explicit for nd in chain if nd != (None, None)) and after[(pn, pc)] != base:
             fails.append('unset specific value getSpecific%r = %s does not follow the general value %s' % ((pn, pc), after[(pn, pc)], base))
 
 def _hist_risky(k, T, ops):
@@ -1005,7 +1008,58 @@ def run(ctx):
                             t0=ctx.t0)
 
 def replay(ctx, path):
+    """re-run a replay file on the implementation and print what happens now"""
     d = json.load(open(path))
     c = d.get('case') or d.get('first_disagreement')
-    print(json.dumps(c, indent=1, ensure_ascii=False))
+    if not c:
+        print(json.dumps(d, indent=1, ensure_ascii=False)[:4000]); return 0
+    inp = c['input']
+    print('input:', json.dumps(inp, ensure_ascii=False))
+    print('recorded:', c.get('oracle_msg') or ('impl=%r model=%r' % (c.get('impl'), c.get('model'))))
+    I = Impl()
+    op = inp.get('op')
+    if op in ('roundtrip', 'value', 'str_sv', 'val_str', 'val_ser') and 'class' in inp:
+        stored, after, text = reload_value(I, inp['class'], inp['name'].split('.', 1)[1], set(inp['value']) if inp['class'].endswith('Set') else inp['value'])
+        print('now: stored %r, file %r, reloaded %r -> %s' % (stored, file_value_lines(text), after, 'OK' if after == stored else 'FAILS'))
+    elif op == 'val_set':
+        node = I.new(inp['class']); node.setValue(inp['current'])
+        print('now: set(%r) -> %s, value %r' % (inp['text'], I.set_text(node, inp['text']), canon_value(node.value)))
+    elif op == 'join':
+        j = I.registry.join(inp['names']); print('now: join = %r, split(join) = %r' % (j, I.registry.split(j)))
+    elif op == 'read':
+        open(I.fn, 'w', encoding='utf-8', newline='').write(inp['text'])
+        try:
+            I.registry.open_registry(I.fn, clear=True); print('now: cache =', dict(I.registry._cache.items()))
+        except Exception as e:
+            print('now: open_registry raises %r' % (e,))
+    elif op == 'close':
+        reg = I.registry; I.reset_cache()
+        root = reg.Group(); root.setName('vt')
+        for v in inp['values']:
+            node = I.classes[v['class']](v['default'], v['help']); root.register(v['name'].split('.', 1)[1], node); node.setValue(v['value'])
+        reg.close(root, I.fn); text = open(I.fn, encoding='utf-8', newline='').read()
+        print('now: file value lines', file_value_lines(text))
+        try:
+            reg.open_registry(I.fn, clear=True); print('now: cache =', dict(reg._cache.items()))
+        except Exception as e:
+            print('now: open_registry raises %r' % (e,))
+    elif op == 'tree':
+        world = I.world; world.ircs[:] = [_StubIrc(n) for n in NETS]
+        I.reset_cache()
+        T = RealTree(I, inp['class'], inp['kind'], inp['default'])
+        def show():
+            return {('%s/%s' % p): T.get(*p) for p in PROBES if inp['kind'] == 'chan' or (inp['kind'] == 'net' and p[1] is None) or p == (None, None)}
+        print('start:', show())
+        for o in inp['ops']:
+            if o[0] == 'set': res = T.set_text(tuple(o[1]), o[2])
+            elif o[0] == 'setv': res = T.set_value(tuple(o[1]), o[2])
+            elif o[0] == 'reset_chan': res = T.reset_chan(o[1], o[2])
+            elif o[0] == 'reset_net': res = T.reset_net(o[1])
+            elif o[0] == 'get': res = T.get(o[1] or None, o[2] or None)
+            else:
+                res, text = T.save_load(); res = '%s file=%r' % (res, file_value_lines(text))
+                if T.node is None: print(o, '->', res); break
+            print(o, '->', res, '\n    ', show(), '\n     set values:', T.dump())
+    else:
+        print('(no specific replay for this operation; the input above is self-contained)')
     return 0
